@@ -45,6 +45,16 @@ CHECKS = {
         note=("Trusted: vlib/simk.py file layer, proc(5)/iostats.txt column meanings. statvfs tuples satisfy bavail <= bfree <= blocks; unique device names."),
         design="DESIGN.md section 3 C09",
     ),
+    "C10": dict(
+        level="exploration",
+        technique="property-based testing (Hypothesis): generated counter-snapshot / call / cache_clear histories -> reference model of the wrap-offset rule",
+        text=("Histories of raw counter changes (devices appear, vanish, reappear; fields grow, stay, drop), public calls of both functions in every per-device/total and nowrap form "
+              "and cache_clear() calls run against the real parsers and wrap cache over simulated /proc files; every returned value is compared with a reference model of the statement "
+              "and checked for monotonicity. One recorded known finding (perdisk alternation) is excluded by construction. Sequential histories only: the two-thread quantifier is "
+              "not explored by this check. Search, not proof."),
+        note=("Trusted: vlib/simk.py file layer, c09 renderers. Presence of a device is observed at nowrap=True calls that return it."),
+        design="DESIGN.md section 3 C10",
+    ),
 }
 
 ALL = ["C%02d" % i for i in range(1, 21)]
